@@ -81,6 +81,16 @@ char *strchr(const char *s, int c)
         if (!s[i]) return (char *) 0;
     }
 }
+
+/* the environment of the tier B units: HOME -> vb_home, "a" -> vb_env_a (NULL = unset), nothing else set */
+char *vb_home, *vb_env_a;
+char *getenv(const char *name)
+{
+    __CPROVER_assert(name != NULL, "getenv: name not NULL");
+    if (name[0] == 'H' && name[1] == 'O' && name[2] == 'M' && name[3] == 'E' && name[4] == 0) return vb_home;
+    if (name[0] == 'a' && name[1] == 0) return vb_env_a;
+    return (char *) 0;
+}
 #endif /* VERIF_EXACT_LIBC */
 
 
